@@ -134,6 +134,6 @@ package ice
 
 //@ func (*Agent).handleInboundBindingSuccess
 //@   props C02
-//@   modifies a.pendingBindingRequests, fam:H_ice.bindingRequest.*, fam:E_*
-//@   trusted
+//@   modifies fam:H_ice.Agent.pendingBindingRequests*, fam:H_ice.bindingRequest.*, fam:E_*
 //@   ensures result0 ==> result1 != nil && fresh(result1)
+//@   ensures no-match-no-request: !result0 ==> result1 == nil
